@@ -73,13 +73,21 @@ CandClauses(c, want) ==
 \* ---------------------------------------------------------------- from a reference decode back to a line (C03, C09)
 \* the decoded instruction as an abstract line (mn, ops) that Syntax.Layout can spell; branch displacements, far pointers,
 \* 16-bit addressing forms and lock/rep prefixes have no spelling here
-PlainPrefixes(d) == ~D!Has(d.pfx, 240) /\ ((D!Has(d.pfx, 242) \/ D!Has(d.pfx, 243)) => "mp" \in d.use)
+\* ... except one repeat prefix on a string instruction: "rep movsb", "repz cmpsb", "repnz scasb" (F2 only where it has a
+\* meaning of its own, on the comparing string instructions)
+RepSpelled(d) == /\ "rep" \in d.use /\ ~(D!Has(d.pfx, 242) /\ D!Has(d.pfx, 243))
+                 /\ (D!Has(d.pfx, 242) => "repcc" \in d.use)
+RepWord(d) == IF ~RepSpelled(d) THEN ""
+              ELSE IF D!Has(d.pfx, 242) THEN "repnz "
+              ELSE IF D!Has(d.pfx, 243) THEN (IF "repcc" \in d.use THEN "repz " ELSE "rep ")
+              ELSE ""
+PlainPrefixes(d) == ~D!Has(d.pfx, 240) /\ ((D!Has(d.pfx, 242) \/ D!Has(d.pfx, 243)) => ("mp" \in d.use \/ RepSpelled(d)))
 Renderable(d) == /\ d.ok /\ PlainPrefixes(d)
                  /\ \A j \in 1..Len(d.ops) : d.ops[j].k \in {"reg", "imm"} \/ (d.ops[j].k = "mem" /\ d.ops[j].aw = 32)
 OpOf(o) == IF o.k = "reg" THEN [k |-> "reg", c |-> o.c, n |-> o.n]
            ELSE IF o.k = "imm" THEN [k |-> "imm", v |-> Norm(o.v, 32), neg |-> FALSE, sym |-> ""]
            ELSE [k |-> "mem", sz |-> o.sz, seg |-> o.seg, b |-> o.b, i |-> o.i, sc |-> o.sc, d |-> o.d, aw |-> 32, sym |-> ""]
-InsOf(d) == [mn |-> d.mn, ops |-> [j \in 1..Len(d.ops) |-> OpOf(d.ops[j])]]
+InsOf(d) == [mn |-> RepWord(d) \o d.mn, ops |-> [j \in 1..Len(d.ops) |-> OpOf(d.ops[j])]]
 \* "instructions a compiler emits": no raw relative displacement, no absolute numeric memory operand (C09)
 Emittable(d) == \A j \in 1..Len(d.ops) : /\ d.ops[j].k \notin {"rel", "far"}
                                            /\ ~(d.ops[j].k = "mem" /\ d.ops[j].b = -1 /\ d.ops[j].i = -1)
